@@ -197,6 +197,14 @@ def run_case(key, tier, b, res):
         if any(isinstance(r, tuple) for r in (sq, tt, tt2)):
             res.count("rejected_by_validator")
             continue
+        if label.startswith("ref-dontcare:") and "same value assigned twice through different value expressions" in label:
+            # DESIGN 11.2: the model API rejects two unconditional assignments with different value expressions statically; after
+            # grounding/simplification the sequential path refuses such an action while the time-triggered path compares the
+            # (equal) values dynamically. The statements only fix *different* values: not judged, counted.
+            res.count("dontcare:same-value-through-different-expressions")
+            if not (sq == tt == tt2):
+                res.count("observed:same-value-different-expressions-disagreement")
+            continue
         if label.startswith("ref-dontcare:") and "undefined" in label:
             # the docs leave reads of undefined values that do not matter (`true or undef`, `f == f`) to the implementation;
             # the two validators evaluate differently simplified expressions there: not judged (rule 1), only counted
